@@ -322,17 +322,25 @@ def check(prop, tier):
             {"kind": "eval", "params": [n for n, _ in ob.params], "pre": pres, "body": ob.body, "args": list(ob.witness)}
         )
     pre = concrete(module, jobs) if jobs else []
-    bad = [
-        (ob.name, r) for ob, r in zip(chobs, pre) if not (r["pre_ok"] and r["result"] is True)
-    ]
-    if bad:
-        for n, r in bad:
-            print("harness-error: pre-flight witness of %s failed: %s" % (n, json.dumps(r)[:1500]))
-        write_evidence(prop, tier, seed, H, obs, [], t0, kf_lines, note="pre-flight failed")
-        return 3
+    # A witness that satisfies the pre but makes the oracle False (or raises) on the real code is a reproduced concrete
+    # counterexample (every witness passes on the unchanged tree): report it as a violation of that obligation and do
+    # not spend solver time on it.  A witness that fails its own precondition is a harness error.
+    results = []
+    pre_viol = {}
+    for ob, r in zip(chobs, pre):
+        if not r["pre_ok"]:
+            print("harness-error: pre-flight witness of %s does not satisfy its precondition: %s" % (ob.name, json.dumps(r)[:600]))
+            write_evidence(prop, tier, seed, H, obs, [], t0, kf_lines, note="pre-flight failed")
+            return 3
+        if r["result"] is not True:
+            pre_viol[ob.name] = r
+            results.append({"name": ob.name, "kind": ob.kind, "bounds": ob.bounds, "spurious": 0, "paths": 1, "solver_s": 0.0,
+                            "status": "violated",
+                            "main": {"vals": list(ob.witness), "msg": "concrete pre-flight witness (no solver needed)",
+                                     "replay_detail": r["exc"] or "oracle returned False"}})
+    obs = [o for o in obs if o.name not in pre_viol]
 
     # ---- solver runs
-    results = []
     with cf.ThreadPoolExecutor(max_workers=max(1, NPROC // 2)) as pool:
         futs = {}
         for ob in obs:
@@ -357,7 +365,7 @@ def check(prop, tier):
     # ---- verdicts
     rc = 0
     viol = 0
-    obmap = {o.name: o for o in obs}
+    obmap = {o.name: o for o in list(obs) + [o for o in chobs if o.name in pre_viol]}
     for r in results:
         if r["status"] == "violated":
             viol += 1
@@ -388,7 +396,7 @@ def check(prop, tier):
         for r in herr:
             print("harness-error: %s: %s" % (r["name"], (r.get("why") or "")[-800:]))
         rc = 3
-    write_evidence(prop, tier, seed, H, obs, results, t0, kf_lines, violations=viol)
+    write_evidence(prop, tier, seed, H, list(obmap.values()), results, t0, kf_lines, violations=viol)
     n_dis = sum(1 for r in results if r["status"] == "discharged")
     n_inc = sum(1 for r in results if r["status"] == "inconclusive")
     print(
